@@ -91,8 +91,10 @@ def zipRows (f : α → β → γ) (r : List (List α)) (r' : List (List β)) : 
 
 /-- Irregular operands **as coded**: the two value dictionaries are zipped in their own
 insertion orders, the label comes from the left operand.  An observation pair with different
-numbers of values is not combined (NumPy refuses, or the constructor rejects the result; the
-broadcastable one-point case is outside the model). -/
+numbers of values is not combined (NumPy refuses, or the constructor rejects the result).  Pairs
+of arrays with equally many values but different shapes (2-D: `(3,2)` against `(2,3)`) and the
+broadcastable one-point case can only arise under the order defect (finding
+`C12-irregular-value-order`); they are outside the model and the harness does not send them. -/
 def pairZip (f : α → β → γ) : D (Grid × List α) → D (Grid × List β) → Option (D (Grid × List γ))
   | [], _ => some []
   | _ :: _, [] => some []
